@@ -301,12 +301,27 @@ func (ch c05) Run(c *core.Ctx) {
 			c.Count("queries_inside_open_extended_sequence", 1)
 		}
 		evStart := len(cl.C.Events())
-		out, closed := cl.Step(pg.Query(text))
+		in, held := pg.Query(text), []byte(nil)
+		if (idx/nb)%7 == 5 {
+			// the Query arrives together with the first one to four bytes of the client's next message (a Sync),
+			// whose rest the client holds back: the answer to the Query does not wait for it
+			sy := pg.Sync()
+			k := 1 + idx%4
+			in, held = append(in, sy[:k]...), sy[k:]
+			c.Count("queries_arriving_with_the_head_of_the_next_message", 1)
+		}
+		out, closed := cl.Step(in)
 		if hangCheck(c, cl, s) {
 			return
 		}
 		evs := cl.C.Events()[evStart:]
 		ok := ch.judge(c, idx, s, text, out, closed, evs, cl.C.Out())
+		if held != nil && ok && !closed {
+			if o, _ := cl.Step(held); pg.Types(mustMsgs(o)) != "Z" {
+				c.Violate("transcript", "the Sync whose head arrived with the previous Query is not answered by one ReadyForQuery", replyKinds(o), s)
+				ok = false
+			}
+		}
 		c.Eval(s.shape(), s.nontrivial())
 		c.Count("query_cycles", 1)
 		if idx < 3*nb {
@@ -314,6 +329,9 @@ func (ch c05) Run(c *core.Ctx) {
 		}
 		delete(sess.Progs, text)
 		if !ok || closed {
+			if !closed {
+				cl.C.CloseWrite() // (whatever the server is still waiting for on this connection, it is not coming)
+			}
 			cl = nil
 		}
 		if c.NViol() >= 20 {
